@@ -1054,7 +1054,7 @@ def main(ctx):
                  must_raise=lambda kind, op: op[0] == "badids")
 
     # ------------------------------------------------ long arrays through lookup_id (mc/longarr.py)
-    from mc.longarr import tiled_elementwise, PERIOD
+    from mc.longarr import tiled_elementwise, PERIOD, marks
 
     def sky_base():
         t = np.arange(PERIOD, dtype="f8")
@@ -1069,4 +1069,4 @@ def main(ctx):
     for dpt in (1, 10, 20):
         hh = htm.HTM(dpt)
         hspecs["lookup_id(depth=%d)" % dpt] = (sky_base, (lambda ra, dec, h=hh: h.lookup_id(ra, dec)))
-    tiled_elementwise(ctx, "long-arrays", hspecs, ctx.pick((100000, 1000000), (65536, 100000, 1000000, 1048576, 2000000)))
+    tiled_elementwise(ctx, "long-arrays", hspecs, marks(ctx))
